@@ -224,7 +224,8 @@ impl Property for C02 {
                     }
                     let msgs: Vec<Message> = batch.iter().map(|m| w.msg(m)).collect();
                     w.gw.approve(&env, &w.set, &msgs).map_err(|e| format!("step {}: {}", step, e))?;
-                    let evs = events_since(&env, ev0);
+                    // approval events = gateway events whose first topic is the approval symbol (other events are not the property's business)
+                    let evs: Vec<Ev> = events_since(&env, ev0).into_iter().filter(|e| e.0 == w.gw.id && e.1.first() == Some(&sym("message_approved"))).collect();
                     ensure_p!(
                         evs.len() == expected_new.len(),
                         "step {} {:?}: {} message_approved events, reference expects {} (only ids never seen before)",
@@ -308,12 +309,11 @@ impl Property for C02 {
                         cx.count("must_succeed");
                         ensure_p!(result == Ok(true), "step {} {:?}: matching unexecuted approval, but consumption returned {:?}", step, op, result);
                         model.insert(key, St::Executed(looked_for));
-                        let evs = events_since(&env, ev0);
+                        // no approval event may accompany a consumption
                         ensure_p!(
-                            evs.len() == 1 && evs[0].0 == w.gw.id && evs[0].1.len() == 2 && evs[0].1[0] == sym("message_executed") && evs[0].1[1] == scv(&env, w.msg(&looked_for)),
-                            "step {}: expected exactly one message_executed event naming the full message, got {:?}",
-                            step,
-                            evs
+                            !events_since(&env, ev0).iter().any(|e| e.1.first() == Some(&sym("message_approved"))),
+                            "step {}: a consumption emitted an approval event",
+                            step
                         );
                     } else {
                         cx.count("must_return_false");
